@@ -22,9 +22,23 @@ def stalling_noisy_specs(ctx):
     return specs
 
 
+def dyadic_tol_specs(ctx):
+    """tol_mesh given as an exact power of two (so that the mesh can land exactly ON the tolerance), runs long enough to stop on it."""
+    from .. import gen
+    rng = ctx.sub_rng("c13dyadic")
+    specs = []
+    for e, accel, mode in ((-2, True, "det"), (-4, False, "det"), (-3, True, "decl"), (-7, False, "det"), (-5, True, "det"), (-3, False, "he")) + \
+            (() if ctx.quick else tuple((-rng.randint(1, 9), rng.random() < 0.5, rng.choice(["det", "det", "decl", "auto"])) for _ in range(30))):
+        sp = gen.make_spec(rng, D=rng.choice([1, 2, 2, 3]), geom=rng.choice(["box", "tight", "unbounded"]), mode=mode, cons=None, opt_loc="inside", target=rng.choice(["quad", "abs"]))
+        sp["options"] = {"n_search": 32, "tol_mesh": 2.0 ** e, "accelerate_mesh": accel, "max_fun_evals": 160 if mode == "det" else 220, "noise_final_samples": 0}
+        specs.append(sp)
+    return specs
+
+
 def run(ctx):
     rep = Report()
     runlevel.with_extra(ctx, "c13stall", lambda: stalling_noisy_specs(ctx))
+    runlevel.with_extra(ctx, "c13dyadic", lambda: dyadic_tol_specs(ctx))
     runlevel.scripted_controller_runs(ctx, "c13script", 12 if ctx.quick else 120)
     # stalling runs with mesh acceleration explicitly switched OFF (mostly tiny / negative scripted improvements, so that polls fail while
     # the history stalls): a failed poll must halve the mesh, never quarter it
